@@ -32,7 +32,7 @@ headline = m.group(1) if m else "process died without verdict"
 frame = "unknown"
 if m:
     tail = stderr[m.start():]
-    fm = re.search(r"^(github\.com/DataDog/datadog-traceroute/[^\s(]+)\(", tail, re.M)
+    fm = re.search(r"^(github\.com/DataDog/datadog-traceroute/.+)\([^()]*\)$", tail, re.M)
     if fm:
         frame = fm.group(1).replace("github.com/DataDog/datadog-traceroute/", "")
 sig = "crash/" + frame
